@@ -326,6 +326,7 @@ func main() {
 	seed := flag.Int64("seed", 1, "seed")
 	out := flag.String("out", "trace.ndjson", "trace file")
 	nmax := flag.Int("clients", 4, "clients per round (2..4)")
+	entry := flag.Int("entry", 0, "run only this many ENTRY rounds (all clients enter one new key by SubscribeOrCreate at the same time) instead of the parallel rounds")
 	big := flag.Int("big", 0, "run only this many LONG histories (a client far behind a long log, more pending operations than fit one buffer) instead of the parallel rounds")
 	flag.Parse()
 	if os.Getenv("VERIF_STDERR") == "" {
@@ -343,6 +344,20 @@ func main() {
 	var viol []Violation
 	nevents, ncalls, nparallel := 0, 0, 0
 	shapes := map[string]int{}
+	if *entry > 0 {
+		for r := 0; r < *entry; r++ {
+			shapes["entry"]++
+			ev, calls, v := entryRound(r, *seed, rng)
+			for _, e := range ev {
+				enc.Encode(e)
+				nevents++
+			}
+			ncalls += calls
+			viol = append(viol, v...)
+		}
+		*rounds = 0
+		*big = 0
+	}
 	if *big > 0 {
 		for r := 0; r < *big; r++ {
 			shapes["big"]++
@@ -500,6 +515,9 @@ func main() {
 	f.Close()
 	if *big > 0 {
 		*rounds = *big
+	}
+	if *entry > 0 {
+		*rounds = *entry
 	}
 	sum := map[string]interface{}{"rounds": *rounds, "events": nevents, "calls": ncalls, "parallel_exchanges": nparallel, "shapes": shapes, "nviol": len(viol), "violations": viol}
 	b, _ := json.Marshal(sum)
@@ -698,4 +716,213 @@ func tail(t []ev, n int) []ev {
 		return t[len(t)-n:]
 	}
 	return t
+}
+
+// entryRound: 2-3 clients enter one NEW key by SubscribeOrCreate and make their first syncs at (almost) the same moment,
+// some of them after local work; then they go on syncing on their own. Exactly one of them may end up as the creator.
+// Events as in the other rounds (one trace, validated with a configuration in which every client enters by
+// SubscribeOrCreate); what every client holds is read from its counter (two bits per operation).
+func entryRound(r int, seed int64, rng *rand.Rand) (trace []ev, ncalls int, viol []Violation) {
+	st, err := stack.New()
+	if err != nil {
+		fmt.Printf(`{"error":"stack: %s"}`+"\n", err)
+		os.Exit(3)
+	}
+	defer st.Close()
+	st.CreateCollection("col")
+	var mu sync.Mutex
+	n := 2 + rng.Intn(2)
+	key := fmt.Sprintf("entry%d", r)
+	cls := map[int]*stack.Client{}
+	dts := map[int]*stack.DT{}
+	cuid := map[string]int{}
+	type digit struct{ c, seq int }
+	var digits []digit
+	nextID := 0
+	failed := false
+	emit := func(e ev) { mu.Lock(); trace = append(trace, e); mu.Unlock() }
+	fail := func(class, why string) {
+		mu.Lock()
+		defer mu.Unlock()
+		if failed {
+			return
+		}
+		failed = true
+		viol = append(viol, Violation{Property: "C13", Kind: "counter", Class: class, Why: why, Steps: tail(trace, 60), Tool: "concdriver", Seed: seed, Round: r,
+			Hash: fmt.Sprintf("entry-%d-%d", seed, r)})
+	}
+	var dmu sync.Mutex
+	drng := rand.New(rand.NewSource(seed*977 + int64(r)))
+	delays := func(on bool) {
+		if !on {
+			st.FM.Gate = nil
+			return
+		}
+		st.FM.Gate = func(name, coll string) {
+			dmu.Lock()
+			d := time.Duration(drng.Intn(400)) * time.Microsecond
+			dmu.Unlock()
+			if d > 50*time.Microsecond {
+				time.Sleep(d)
+			}
+		}
+	}
+	local := func(c int) {
+		mu.Lock()
+		defer mu.Unlock()
+		if len(digits) >= 15 {
+			return
+		}
+		d := dts[c]
+		d.Counter.IncreaseBy(int32(1) << (2 * uint(len(digits))))
+		digits = append(digits, digit{c, int(d.DT.CreatePushPullPack().CheckPoint.Cseq)})
+		trace = append(trace, ev{"event": "local", "c": c})
+	}
+	syncOnce := func(c int) bool {
+		d := dts[c]
+		mu.Lock()
+		pack := d.DT.CreatePushPullPack()
+		nextID++
+		id := nextID
+		req := d.Request()
+		trace = append(trace, ev{"event": "call", "id": id, "c": c, "nops": len(pack.Operations), "cps": pack.CheckPoint.Sseq, "cpc": pack.CheckPoint.Cseq})
+		ncalls++
+		mu.Unlock()
+		res := st.Serve(req, deadline)
+		e := ev{"event": "ret", "id": id, "c": c}
+		if res.Resp != nil {
+			msg := &model.PushPullMessage{}
+			proto.Unmarshal(res.Resp, msg)
+			if len(msg.PushPullPacks) == 1 {
+				q := msg.PushPullPacks[0]
+				e["kind"], e["cps"], e["cpc"], e["nops"] = kindOf(q), q.CheckPoint.Sseq, q.CheckPoint.Cseq, len(q.Operations)
+			} else {
+				e["kind"] = "empty"
+			}
+		} else {
+			e["kind"] = "rpcerror"
+		}
+		emit(e)
+		if res.Timeout || res.Panic != "" {
+			fail("hang", "a first sync was not answered: "+res.Panic)
+			return false
+		}
+		if res.Resp != nil {
+			if _, pan := d.Apply(res.Resp); pan != "" {
+				fail("panic", "the client panicked applying a response: "+pan)
+				return false
+			}
+			emit(ev{"event": "apply", "id": id, "c": c})
+		}
+		return true
+	}
+	state := func() {
+		delays(false)
+		st.FM.WaitIdle(10*time.Millisecond, 2*time.Second)
+		store := st.ReadStore()
+		nkey := 0
+		for _, dr := range store.Datatypes {
+			if dr.Key != key {
+				continue
+			}
+			nkey++
+			lg := [][]int{}
+			ops := append([]stack.OpRow{}, store.Ops[dr.DUID]...)
+			sort.Slice(ops, func(i, j int) bool { return ops[i].Sseq < ops[j].Sseq })
+			for _, o := range ops {
+				lg = append(lg, []int{cuid[o.CUID], int(o.Seq)})
+			}
+			scp := make([][]int, 4)
+			for c := 1; c <= 4; c++ {
+				scp[c-1] = []int{-1, -1}
+				if cl, okc := cls[c]; okc {
+					if cp, has := dr.CP[cl.Model.CUID]; has {
+						scp[c-1] = []int{int(cp[0]), int(cp[1])}
+					}
+				}
+			}
+			emit(ev{"event": "store", "log": lg, "end": dr.End, "scp": scp})
+		}
+		if nkey != 1 {
+			fail("mismatch", fmt.Sprintf("%d datatypes are stored for one collection and key after racing SubscribeOrCreate entries", nkey))
+		}
+		for c := 1; c <= n; c++ {
+			pack := dts[c].DT.CreatePushPullPack()
+			v := uint32(dts[c].Counter.Get())
+			held := [][]int{}
+			for idx, dg := range digits {
+				for m := 0; m < int((v>>(2*uint(idx)))&3); m++ {
+					held = append(held, []int{dg.c, dg.seq})
+				}
+			}
+			emit(ev{"event": "client", "c": c, "cps": pack.CheckPoint.Sseq, "seq": pack.CheckPoint.Cseq, "held": held})
+			states, errs, _ := dts[c].Ev.Snapshot()
+			nsub := 0
+			for _, s := range states {
+				if len(s) > 12 && s[len(s)-12:] == "->SUBSCRIBED" {
+					nsub++
+				}
+			}
+			if nsub != 1 || len(errs) != 0 {
+				fail("mismatch", fmt.Sprintf("client %d: the transition to SUBSCRIBED was reported %d times, %d errors were reported (a SubscribeOrCreate entry is never refused)", c, nsub, len(errs)))
+			}
+		}
+		delays(true)
+	}
+	for c := 1; c <= n; c++ {
+		cl := stack.NewClient("col", fmt.Sprintf("c%d", c))
+		dts[c] = cl.Open("counter", key, "dueSubCreate")
+		if err := st.Register(cl); err != nil {
+			fmt.Printf(`{"error":"register: %s"}`+"\n", err)
+			os.Exit(3)
+		}
+		cls[c] = cl
+		cuid[cl.Model.CUID] = c
+		emit(ev{"event": "open", "c": c, "mode": "dueSubCreate"})
+	}
+	delays(true)
+	var wg sync.WaitGroup
+	okAll := true
+	plans := map[int][3]int{}
+	starts := map[int]time.Duration{}
+	for c := 1; c <= n; c++ {
+		plans[c] = [3]int{rng.Intn(3), rng.Intn(2), 2 + rng.Intn(2)}
+		starts[c] = time.Duration(rng.Intn(600)) * time.Microsecond
+	}
+	for c := 1; c <= n; c++ {
+		c := c
+		wg.Add(1)
+		go func() {
+			defer wg.Done()
+			for j := 0; j < plans[c][0]; j++ {
+				local(c) // work before the first sync
+			}
+			time.Sleep(starts[c])
+			for j := 0; j < plans[c][2]; j++ {
+				if !syncOnce(c) {
+					mu.Lock()
+					okAll = false
+					mu.Unlock()
+					return
+				}
+				if j == 0 && plans[c][1] == 1 {
+					local(c)
+				}
+			}
+		}()
+	}
+	wg.Wait()
+	if okAll {
+		// everybody syncs twice more, one after the other: settled
+		for k := 0; k < 2 && okAll; k++ {
+			for c := 1; c <= n && okAll; c++ {
+				okAll = syncOnce(c)
+			}
+		}
+	}
+	if okAll {
+		state()
+	}
+	emit(ev{"event": "reset"})
+	return
 }
